@@ -300,12 +300,14 @@ def run_case(case):
                     continue
                 ok, d = same(obs[k], obs0[k], 0.0, (1e-13 * D if mover else 0.0))
                 if not ok:
-                    ok2, _ = same(obs[k], obs0[k], 1e-12, 1e-13 * D) if mover else (False, "")
+                    # arccos near +-1 (coplanar neighbours) turns last-digit rounding of a mover into ~sqrt(eps)
+                    fl = 2e-6 if k.startswith("get_dihedral") else 1e-13 * D
+                    ok2, _ = same(obs[k], obs0[k], 1e-12, fl) if mover else (False, "")
                     if not ok2:
                         bad.append((k, d))
             if bad:
                 k, d = bad[0]
-                rep.violation("side-effect", cls, qn, "observable-changed:" + k, {"base": case["base"], "queries": who}, "after %s the observable %s changed: %s" % (who, k, d))
+                rep.violation("side-effect", cls, qn, "observable-changed:" + k, dict(case, queries=who), "after %s the observable %s changed: %s" % (who, k, d))
                 return False
             rep.ok("only-memo-fields-or-rounding")
             return True
@@ -315,7 +317,7 @@ def run_case(case):
         st1, r1, intact = run_query(obj, q1)
         rep.states += 1
         if not intact:
-            rep.violation("side-effect", cls, q1[0], "argument-mutated", {"base": case["base"], "queries": [q1[0]]}, "%s modified an argument passed by the caller" % q1[0])
+            rep.violation("side-effect", cls, q1[0], "argument-mutated", dict(case, queries=[q1[0]]), "%s modified an argument passed by the caller" % q1[0])
         mover1 = any(m in q1[0] for m in MOVERS)
         ok1 = check_state(obj, state0, mover1, [q1[0]], q1[0])
         ok, d = same((st1, r1), fresh[q1[0]], 0.0, 0.0)
@@ -334,7 +336,7 @@ def run_case(case):
             if q2[0] != q1[0]:
                 rep.nontrivial += 1
             who = [q1[0], q2[0]]
-            pc = {"base": case["base"], "queries": who}
+            pc = dict(case, queries=who)  # replayable: run_case reads base/q1, "queries" documents the pair
             if not intact2:
                 rep.violation("side-effect", cls, q2[0], "argument-mutated", pc, "%s modified an argument passed by the caller" % q2[0])
             mover = mover1 or any(m in q2[0] for m in MOVERS)
